@@ -11,7 +11,7 @@
     uri_attrs_checked uri_attrs_scheme_mod_punct uri_attrs_safe_partial scheme_punct_witness
     css_comments_dotall css_expression_classes_cover css_decode_fixed css_no_expression
     css_urls_scheme_mod_punct css_urls_safe_partial css_scheme_punct_witness
-    attr_value_roundtrip uri_attrs_scheme_serialised
+    attr_value_roundtrip uri_attrs_scheme_serialised default_config_script_free
 -/
 import Genshi.Lemmas.SanNest
 import Genshi.Lemmas.SanTree
@@ -408,5 +408,36 @@ theorem uri_attrs_scheme_serialised {cfg : Cfg} {s o : Stream} (h : sanitize cfg
 -- non-vacuity: a value with all four escaped characters
 example : stripentities (Genshi.Escape.escapeSpec true ['a', '&', '<', '"', '>', '&', 'l', 't', ';']) =
     .ok ['a', '&', '<', '"', '>', '&', 'l', 't', ';'] := by decide +kernel
+
+/-! ## The default configuration (the generated class attributes)
+
+  All theorems above hold for every configuration; the property's title also says "script-free",
+  which for the *default* sets means: no scripting element, no event-handler or `style`
+  attribute, no scripting scheme is whitelisted, and the hypotheses of the CSS theorems hold.
+  Re-checked against `Gen/Sanitizer.lean` on every run, so that a changed class attribute that
+  lets script through breaks a named theorem. -/
+
+def startsWithOn : Str → Bool
+  | 'o' :: 'n' :: _ => true
+  | _ => false
+
+theorem default_config_script_free :
+    (∀ t ∈ [['s', 'c', 'r', 'i', 'p', 't'], ['s', 't', 'y', 'l', 'e'], ['o', 'b', 'j', 'e', 'c', 't'],
+            ['e', 'm', 'b', 'e', 'd'], ['i', 'f', 'r', 'a', 'm', 'e'], ['a', 'p', 'p', 'l', 'e', 't'],
+            ['l', 'i', 'n', 'k'], ['m', 'e', 't', 'a'], ['b', 'a', 's', 'e'], ['s', 'v', 'g'], ['m', 'a', 't', 'h'],
+            ['f', 'r', 'a', 'm', 'e'], ['f', 'r', 'a', 'm', 'e', 's', 'e', 't']],
+        t ∉ Cfg.default.safeTags) ∧
+    (∀ a ∈ Cfg.default.safeAttrs, startsWithOn a = false) ∧
+    styleWord ∉ Cfg.default.safeAttrs ∧
+    ['f', 'o', 'r', 'm', 'a', 'c', 't', 'i', 'o', 'n'] ∉ Cfg.default.safeAttrs ∧
+    ['s', 'r', 'c', 'd', 'o', 'c'] ∉ Cfg.default.safeAttrs ∧
+    (∀ sch ∈ [['j', 'a', 'v', 'a', 's', 'c', 'r', 'i', 'p', 't'], ['v', 'b', 's', 'c', 'r', 'i', 'p', 't'],
+              ['d', 'a', 't', 'a'], ['l', 'i', 'v', 'e', 's', 'c', 'r', 'i', 'p', 't'], ['m', 'o', 'c', 'h', 'a']],
+        sch ∉ Cfg.default.safeSchemes) ∧
+    (∀ a ∈ [['h', 'r', 'e', 'f'], ['s', 'r', 'c'], ['a', 'c', 't', 'i', 'o', 'n']],
+        a ∈ Cfg.default.safeAttrs → a ∈ Cfg.default.uriAttrs) ∧
+    styleWord ∉ Cfg.default.uriAttrs ∧ CssNamesPlain Cfg.default := by
+  unfold CssNamesPlain
+  decide +kernel
 
 end Genshi.Props.C06
